@@ -373,6 +373,13 @@ func (t *runTracer) probe(point string, g *hermes.GlobalVarsMain, extra ...inter
 		e["FRUCHT"] = fr
 		e["IRRST1"], e["IRRST2"], e["IRRMAX"] = fxs("IRRST1", g.IRRST1[:nr], 3), fxs("IRRST2", g.IRRST2[:nr], 3), fxs("IRRMAX", g.IRRMAX[:nr], 3)
 		e["mess"] = g.MESS[0]
+		orgH := make([]int, nr)
+		for i := 0; i < nr; i++ {
+			if g.ODU[i] == 1 && g.ORGTIME[i] == "H" {
+				orgH[i] = 1
+			}
+		}
+		e["ORGH"] = orgH
 		// the effective configuration of the run (every scalar key, canonical rendering)
 		all := map[string]string{}
 		cv := reflect.ValueOf(*cfg)
@@ -531,6 +538,11 @@ func (t *runTracer) probe(point string, g *hermes.GlobalVarsMain, extra ...inter
 		e["NFIXSUM"] = lim("NFIXSUM", g.NFIXSUM, eN)
 		e["sumPE"] = sumLimb("PE", g.PE[:n], 1, eN)
 		e["phyllo"] = fx("PHYLLO", g.PHYLLO, 3)
+		if cl, ok := extra[3].(*hermes.CropSharedVars); ok {
+			e["nrentw"] = cl.NRENTW
+		} else {
+			e["nrentw"] = 0
+		}
 		nstate(e, g)
 	case "nitro.mineral":
 		zeit, subd := extra[0].(int), extra[1].(int)
